@@ -17,30 +17,47 @@ open Goframe
 
 def ratAbs (q : Rat) : Rat := if q < 0 then -q else q
 
-/-- equality of cells up to float rounding (relative 2^-40) -/
-def cellApprox (a b : Cell) : Bool :=
+/-- equality of cells up to float rounding: relative 2^-40 of the two values, plus an absolute slack of
+2^-40 · `sc`. The model adds finite floats as exact rationals; IEEE summation of x₁…xₙ is off by at most
+(n-1)·2^-53·Σ|xᵢ|, which is NOT small relative to the result when the terms cancel
+(1 + 3·(-0.333…) ≈ 1.4e-17 exactly, 2.8e-17 in float64). So wherever the compared value is a float sum or
+mean, `sc` is Σ|xᵢ| over the numeric cells of the summed frame; everywhere else `sc = 0`. -/
+def cellApproxS (sc : Rat) (a b : Cell) : Bool :=
   match a, b with
   | .flt s (.fin x), .flt r (.fin y) =>
-    s == r && (x == y || ratAbs (x - y) * 1099511627776 ≤ ratAbs x + ratAbs y)
-  | .flt s .nzero, .flt r (.fin y) => s == r && y == 0
-  | .flt s (.fin x), .flt r .nzero => s == r && x == 0
+    s == r && (x == y || ratAbs (x - y) * 1099511627776 ≤ ratAbs x + ratAbs y + sc)
+  | .flt s .nzero, .flt r (.fin y) => s == r && (y == 0 || ratAbs y * 1099511627776 ≤ sc)
+  | .flt s (.fin x), .flt r .nzero => s == r && (x == 0 || ratAbs x * 1099511627776 ≤ sc)
   | a, b => a == b
 
-def listApprox : List Cell → List Cell → Bool
+def cellApprox (a b : Cell) : Bool := cellApproxS 0 a b
+
+/-- Σ|x| over the cells of a frame that the aggregations read as finite numbers -/
+def frameMag (ω : Oracle) (f : Frame) : Rat :=
+  f.foldl (fun acc kc => kc.2.data.foldl (fun a c =>
+    match ω.toFloat c with
+    | some (.fin x) => a + ratAbs x
+    | _ => a) acc) 0
+
+def listApproxS (sc : Rat) : List Cell → List Cell → Bool
   | [], [] => true
-  | a :: as, b :: bs => cellApprox a b && listApprox as bs
+  | a :: as, b :: bs => cellApproxS sc a b && listApproxS sc as bs
   | _, _ => false
 
-def frameApprox : Frame → Frame → Bool
+def frameApproxS (sc : Rat) : Frame → Frame → Bool
   | [], [] => true
   | (k, c) :: fs, (k', c') :: gs =>
-    k == k' && c.name == c'.name && listApprox c.data c'.data && frameApprox fs gs
+    k == k' && c.name == c'.name && listApproxS sc c.data c'.data && frameApproxS sc fs gs
   | _, _ => false
 
-def poolApprox : Pool → Pool → Bool
+def poolApproxS (sc : Rat) : Pool → Pool → Bool
   | [], [] => true
-  | f :: fs, g :: gs => frameApprox f g && poolApprox fs gs
+  | f :: fs, g :: gs => frameApproxS sc f g && poolApproxS sc fs gs
   | _, _ => false
+
+def listApprox := listApproxS 0
+def frameApprox := frameApproxS 0
+def poolApprox := poolApproxS 0
 
 structure DumpEntry where
   same : Bool
@@ -280,7 +297,11 @@ partial def seqSteps (ω : Oracle) (n : Nat) (idx : Nat) (model impl : Pool) (v 
               v := { v with corr := s!"{tag}:sort-not-ordered-permutation" }
           | none => v := { v with corr := s!"{tag}:missing-result" }
         | none =>
-          if !poolApprox mp impl' then
+          -- Describe's mean is a float sum: compare at the magnitude of the summed frame
+          let sc : Rat := match op with
+            | .describe t => frameMag ω (impl.getD t [])
+            | _ => 0
+          if !poolApproxS sc mp impl' then
             v := { v with corr := s!"{tag}:pool-differs" }
       | _ => pure ()
   -- continue from the implementation's state (keeps float rounding from accumulating)
